@@ -8,7 +8,7 @@ thread-local variables:
 * request thread of transaction `r` (`requestProg`): the live system `QuotaProcessorInc`s, then the user flow's
   limiters — `GetQuota(q, r)` (`touch`), `Inc` (`chk` / `sadd` / parent … / `setst`), `Allowed` (`Inc` again, status
   check `chkA`, parent's `Allowed`) — then, when refused or answered early, `OnRequestDrop` and the response flows;
-* response thread (`endProg`): one `QuotaProcessorDec` per concurrent quota (`touch`, `Dec` = `read` → `recheck` → `srem`, parent …, `del`), then `OnResponseFinish` (`pop`);
+* response thread (`endProg`): one `QuotaProcessorDec` per concurrent quota (`touch`, `Dec` = `read` → `recheck` → `srem`, parent …, `del`), then `OnResponseFinish` = `OnRequestDrop` (`dropPop`, F02f);
 * proxy-error thread (`[dropPop]`): `OnRequestDrop` = pop the touched quotas and `Dec` each;
 * GC agent for one member of the snapshot it judged expired: `SRem` then status delete (`gsrem`, `gdel`).
 
@@ -83,7 +83,7 @@ def decAll (cfg : Cfg) (qs : List Nat) : List Instr :=
   qs.flatMap fun q0 => if cfg.isConc q0 then decProg (cfg.chainOf q0) else []
 
 def endProg (cfg : Cfg) : List Instr :=
-  (cfg.sysDecs.flatMap fun q0 => .touch q0 :: decProg (cfg.chainOf q0)) ++ [.pop]
+  (cfg.sysDecs.flatMap fun q0 => .touch q0 :: decProg (cfg.chainOf q0)) ++ [.dropPop]
 
 /-- Point update of a per-level local variable. -/
 def upd {α : Type} (f : Nat → α) (q : Nat) (v : α) : Nat → α := fun q' => if q' = q then v else f q'
